@@ -30,12 +30,18 @@ Definition SetM (id which : Z) (m : meth) : expr := ESetM id which m.
 Inductive case :=
 | CExpr (ps : list value) (vs : list value) (e : expr) (status : Z) (r : oval) (vars : list oval) (lg : list Z)
     (* ps: the objects that serve as prototypes, vs: initial a, b, c *)
-| CIntStr (n : Z) (obs : list Z).   (* ToString of a number value that otto holds as a Go integer *)
+| CIntStr (n : Z) (obs : list Z)    (* ToString of a number value that otto holds as a Go integer *)
+| CApi (p : prim) (b : bool) (f : Z) (i : Z) (s : list Z)
+    (* a Go value handed to otto and read back through the Go API: Value.ToBoolean / ToFloat / ToInteger / ToString *)
+| CPin (k : Z) (state : Z).
+    (* pinned witness of a finding whose deviation is not modelled (class k): the harness compares the observation
+       with the recorded otto result (state 0), the ES5 result (state 1), anything else (state 2) *)
 
 (* finding classes, attributed by switching otto's remaining deviations on one after the other:
    2 ToNumber(string) accepts Go float/int syntax outside 9.3.1
    3 ToNumber(string) rejects hex literals >= 2^63
    7 ToString of a number held as a Go integer prints every integer digit (CIntStr)
+   9 ToString of a number held as a Go float32 prints float32-shortest digits (CPin)
    Classes 1 (ToInt32 family beyond 2^63), 4 (string < on UTF-8 bytes), 5 (a + b order),
    6 (x op= e order) and 8 (instanceof on a bound function) were repaired in /repo
    (02e659b, b6ed2ef, 0c8f777, 3657e0a, ea21c58) and are no longer produced: the old
@@ -60,6 +66,29 @@ Definition verdict (c : case) : Z * Z :=
           judge obs_eqb (st, r, vars, lg) m s (if obs_eqb m s then 0 else class_of ps vs e)
       | _, _ => declined
       end
+  | CApi p b f i s =>
+      let st0 := {| vars := []; log := []; tbl := []; protos := [] |} in
+      (* Value.ToInteger: NaN -> 0, saturation at the int64 ends, truncation otherwise *)
+      let api_int (x : Z) : Z :=
+        match decode x with
+        | DNaN => 0
+        | DInf neg => if neg then - 2 ^ 63 else 2 ^ 63 - 1
+        | DFin neg m e => Z.max (- 2 ^ 63) (Z.min (2 ^ 63 - 1) (sgn_m neg (trunc_mag m e)))
+        end in
+      let conv (d : dialect) :=
+        match to_number d p st0, to_string p st0 with
+        | (Ok x, _), (Ok t, _) => Some (to_boolean p, x, api_int x, t)
+        | _, _ => None
+        end in
+      let eqb4 (a c : bool * Z * Z * list Z) :=
+        let '(b1, f1, i1, s1) := a in let '(b2, f2, i2, s2) := c in
+        Bool.eqb b1 b2 && (f1 =? f2) && (i1 =? i2) && zlist_eqb s1 s2 in
+      match conv model_d, conv spec_d with
+      | Some m, Some sp => judge eqb4 (b, f, i, s) m sp (if eqb4 m sp then 0 else 2)
+      | _, _ => declined
+      end
+  | CPin k state =>
+      if state =? 0 then (1, k) else if state =? 1 then (2, k) else (3, k)
   | CIntStr n obs =>
       let d := of_int n in
       match number_to_string d with
